@@ -3,6 +3,7 @@ from .pdb import strip, walk, loc, ancestors
 from .terms import Ctx, num, show, lin_add, lin_sub
 from .common import (P, F, LEN, SIZE, GT, GE, NE, effects, callee_path, callee_generic, call_args, in_macro, forwards_to, is_zero_term, OP_OF_TRAIT,
                      rule_elementwise, effective_guards, find_argmax, is_abs_term, _resolve, rule_index_kinds, single_expr_body, is_call_like)
+from .common import rule_empty_safe
 from .guards import facts, cond_atoms, norm_cmp, prove_lt, prove_le
 from .guards import for_range as raw_for_range
 from .common import for_range_total as for_range
@@ -28,7 +29,8 @@ EDITS = {
 
 def check_norm_inf(rep, pdb, path, key):
     fn = pdb.fn(path)
-    rule = "norm_inf is an arg-max fold over |v_i| starting from |v_0| and ranging 1..size (no element skipped)"
+    rule = ("norm_inf is an arg-max fold over |v_i| covering every element (from |v_0| over 1..size, or from 0.0 over 0..size) and a NaN component is never "
+            "skipped: the running maximum is also replaced when |v_i| is NaN (`best < NaN` is false, so a bare `<` test ignores it)")
     if fn is None:
         rep.missing(key, rule, "not found")
         return
@@ -36,13 +38,18 @@ def check_norm_inf(rep, pdb, path, key):
     lps = [n for n in walk(fn["body"]) if n.get("k") == "For"]
     am = find_argmax(pdb, ctx, lps[0]) if len(lps) == 1 else None
     ok = am is not None
+    det = am.detail if am else "no (total) arg-max loop"
     if ok:
         cur = _resolve(ctx, am.cur)
         bb = ctx.binds.get(am.best[1])
         init = ctx.term(bb.init) if bb is not None and bb.init is not None else None
-        ok = am.orient_ok and am.best_gets_cur and am.magnitude_ok and is_abs_term(cur) and cur[2] == ("idx", VEC0, am.var) and am.lo == num(1) and am.hi == N0 and \
-            init is not None and is_abs_term(init) and init[2] == ("idx", VEC0, num(0)) and ctx.term(fn["body"]["expr"]) == am.best
-    rep.add(key, rule, ok, fn["body"], am.detail if am else "no (total) arg-max loop", where=loc(fn["body"]))
+        from_first = am.lo == num(1) and init is not None and is_abs_term(init) and init[2] == ("idx", VEC0, num(0))
+        from_zero = am.lo == num(0) and init == num(0)
+        cover = am.orient_ok and am.best_gets_cur and am.magnitude_ok and is_abs_term(cur) and cur[2] == ("idx", VEC0, am.var) and am.hi == N0 and \
+            (from_first or from_zero) and ctx.term(fn["body"]["expr"]) == am.best
+        ok = cover and bool(am.nan)
+        det += "; every element covered=%s; NaN candidate replaces the maximum=%s" % (cover, bool(am.nan))
+    rep.add(key, rule, ok, fn["body"], det, where=loc(fn["body"]))
 
 
 def run(rep, pdb, tier):
@@ -192,7 +199,7 @@ def run(rep, pdb, tier):
     # ---- find
     fn = pdb.find(name="find")
     fn = [f for f in fn if f["file"] == "src/vector/functions.rs"]
-    rule = "find returns the position of the FIRST match (Iterator::position with ==) and size-1 otherwise"
+    rule = "find returns the position of the FIRST match (Iterator::position with ==) and size-1 (saturating at 0 for the empty vector) otherwise"
     if len(fn) != 1:
         rep.missing("find", rule, "not found")
     else:
@@ -225,7 +232,8 @@ def run(rep, pdb, tier):
                         tv = ctx.term(rets[0]["e"]) if rets else ctx.term(a["body"])
                         vals["some"] = tv == ("var", inner["v"])
                     elif nm.endswith("None"):
-                        vals["none"] = ctx.term(a["body"]) == lin_add(N0, num(-1))
+                        nt = ctx.term(a["body"])
+                        vals["none"] = nt == lin_add(N0, num(-1)) or (nt[0] == "call" and str(nt[1]).endswith("::saturating_sub") and nt[2:] == (N0, num(1)))
                 okm = vals.get("some") and vals.get("none")
             ok = ok and bool(okm)
         rep.add("find", rule, ok, fn["body"], "", where=loc(fn["body"]))
@@ -285,6 +293,13 @@ def run(rep, pdb, tier):
         rep.add("spacing/%s" % name, rule, ok, fn["body"], "", where=loc(fn["body"]))
     fns = [f for f in pdb.local_fns() if f["file"].startswith("src/vector/")]
     n_sites = rule_index_kinds(rep, pdb, fns)
+    # ---- length 0 is inside the quantifier: nothing is certain to panic on the empty vector
+    n_es = 0
+    for f_ in pdb.local_fns():
+        if f_.get("file", "").startswith("src/vector/") and f_.get("impl_trait") not in ("std::fmt::Display", "std::fmt::Debug", "std::ops::Index", "std::ops::IndexMut") \
+                and f_.get("name") not in ("pop", "pop_front", "back", "front", "last", "first", "swap", "insert", "remove"):
+            n_es += rule_empty_safe(rep, pdb, f_, "empty-safe", [N0, LEN(VEC0)], "vector")
+    rep.floor("empty-safe/", 40)
     rep.floor("elementwise-polarity/", 12)
     rep.floor("elementwise-coindex/", 12)
     rep.floor("elementwise-fullrange/", 12)
